@@ -81,6 +81,12 @@ func (l *RunLog) setIn(e *Exec, in string) {
 	l.mu.Unlock()
 }
 
+func (l *RunLog) setOpts(e *Exec, opts []string) {
+	l.mu.Lock()
+	e.Opts = opts
+	l.mu.Unlock()
+}
+
 func (l *RunLog) finish(e *Exec, out string, err error) {
 	l.mu.Lock()
 	e.Out, e.Done = out, true
